@@ -191,7 +191,19 @@ def b_sorted(I, args, kwargs):
             return [items[i] for i in order]
         except TypeError:
             pass
-    raise OutsideSubset("sorted() over symbolic keys")
+    # symbolic keys: stable insertion sort, every comparison decided along the path (assumed: sorted() is a stable sort
+    # using only `<` on the keys - the CPython contract)
+    import ast
+    order = []
+    for i in range(len(items)):
+        pos = len(order)
+        for j, o in enumerate(order):
+            lt = ops.compare(I, ast.Lt(), keys[i], keys[o], None) if not rev else ops.compare(I, ast.Lt(), keys[o], keys[i], None)
+            if I.ctx.branch(lt):
+                pos = j
+                break
+        order.insert(pos, i)
+    return [items[i] for i in order]
 
 
 def b_min(I, args, kwargs):
@@ -849,7 +861,38 @@ def x_product(I, args, kwargs):
     return [tuple(t) for t in itertools.product(*[ops.iterate(I, a, None) for a in args])]
 
 
+def x_partial(I, args, kwargs):
+    f, pre = args[0], list(args[1:])
+    return NativeFn("partial", lambda I2, a, k: I2.call(f, pre + list(a), {**kwargs, **k}))
+
+
+def x_defaultdict(I, args, kwargs):
+    return {}      # default-value behaviour is not modelled: reads of missing keys are outside the subset (KeyError path)
+
+
+def x_namedtuple(I, args, kwargs):
+    name, fields = I.force(args[0]), [I.force(f) for f in ops.iterate(I, args[1], None)]
+
+    def make(I2, a, k):
+        vals = dict(zip(fields, a))
+        vals.update(k)
+        if set(vals) != set(fields):
+            _raise("TypeError", f"{name}: wrong arguments")
+        o = SObj(NamedTupleClass(name, fields), vals)
+        o.born = I2.ctx
+        return o
+    return NativeFn(name, make)
+
+
+class NamedTupleClass:
+    def __init__(self, name, fields):
+        self.name, self.fields = name, fields
+
+
 EXTERNALS = {
+    "collections.namedtuple": x_namedtuple,
+    "functools.partial": x_partial,
+    "collections.defaultdict": x_defaultdict,
     "typing.cast": x_cast,
     "copy.deepcopy": x_deepcopy,
     "dataclasses.replace": x_replace,
